@@ -86,6 +86,10 @@ def run(ctx):
         progs.append(gen.random_flow(rng).rstrip("\n").split("\n"))
     for _ in range(40 * k):
         progs.append(gen.mutated_text(rng, gen.render(rng, gen.program(rng, rng.randrange(3, 14)), dict(crlf=False))).rstrip("\n").split("\n"))
+    for _ in range(30 * k):          # the analysis stops (undefined / duplicate labels, no return ...): cut so that the faults lie in different files
+        f, _n, _k, _w = gen.stopping_tree(rng)
+        a, b = dict(f)["a.s"].rstrip("\n").split("\n"), dict(f)["lib.s"].rstrip("\n").split("\n")
+        progs.append([l for l in a if ".include" not in l] + b)
     progs = [p for p in progs if not any(".include" in l or ".macro" in l.lower() or re.match(r"^\s*[-+0-9']", l) for l in p)]
     cases = []
     for p in progs:
